@@ -204,7 +204,7 @@ class Ctx:
         s.lra_queries = 0; s.lra_time = 0.0; s.lra_unsat = 0
         s.divcache = {}
         s.has_alg = False
-        s._sol = None; s._vars = {}; s._nE = 0; s._nF = 0; s._Ekeys = set()
+        s._sol = None; s._vars = {}; s._nE = 0; s._nF = 0; s._Ekeys = set(); s._pending = []
         s.counters = {}
         s.notes = []
         s.extra = {}
@@ -264,10 +264,18 @@ class Ctx:
             s._vars[m] = v
             at = s.atoms
             if all(at.real[a] for a, _ in m):
-                s._sol.add(v[1] == 0)
-                if all(at.pos[a] or e % 2 == 0 for a, e in m):
-                    s._sol.add(v[0] > 0)
+                s._pending.append(v[1] == 0)
+                if all(at.pos[a] or (e % 2 == 0 and at.inv[a]) for a, e in m):
+                    s._pending.append(v[0] > 0)
+                elif all(at.pos[a] or e % 2 == 0 for a, e in m):
+                    s._pending.append(v[0] >= 0)
         return v
+
+    def _frame_facts(s, sol):
+        """monomial sign facts created while a frame is pushed: assert them inside the frame too (they stay pending and are
+        asserted at base level by the next _solver() call)"""
+        if s._pending:
+            sol.add(*s._pending)
 
     def _lin(s, p):
         re = []; im = []
@@ -289,6 +297,8 @@ class Ctx:
     def _solver(s):
         if s._sol is None:
             s._sol = z3.SolverFor('QF_LRA')
+        if s._pending:
+            s._sol.add(*s._pending); s._pending = []
         while s._nE < len(s.E):
             r, i = s._lin(s.E[s._nE]); s._nE += 1
             s._sol.add(r == 0, i == 0)
@@ -296,6 +306,8 @@ class Ctx:
             p, strict = s.facts[s._nF]; s._nF += 1
             r, _ = s._lin(p)
             s._sol.add(r > 0 if strict else r >= 0)
+        if s._pending:
+            s._sol.add(*s._pending); s._pending = []
         return s._sol
 
     def saturate(s, goal_monos, rounds=1, extra_mults=(), conj=False, cap=4000):
@@ -358,6 +370,7 @@ class Ctx:
                     sol.add(r == 0, i == 0)
             r, i = s._lin(p)
             sol.add(z3.Or(r != 0, i != 0))
+            s._frame_facts(sol)
             return s._check(sol) == z3.unsat
         finally:
             sol.pop()
@@ -368,6 +381,7 @@ class Ctx:
         try:
             r, i = s._lin(p)
             sol.add(r == 0, i == 0)
+            s._frame_facts(sol)
             return s._check(sol) == z3.unsat
         finally:
             sol.pop()
@@ -416,6 +430,7 @@ class Ctx:
             return c > 0 if strict else c >= 0
         sol = s._solver()
         r, _ = s._lin(p)
+        sol = s._solver()
         sol.push(); sol.add(r <= 0 if strict else r < 0)
         yes = s._check(sol) == z3.unsat
         sol.pop()
@@ -566,7 +581,7 @@ class SC:
         u = CTX.divcache.get(key)
         if u is None:
             real = CTX.is_real_poly(o.p)
-            pos = real and all(c.re > 0 and all(CTX.atoms.pos[a] or e % 2 == 0 for a, e in m) for m, c in o.p.t.items())
+            pos = real and all(c.re > 0 and all(CTX.atoms.pos[a] or (e % 2 == 0 and CTX.atoms.inv[a]) for a, e in m) for m, c in o.p.t.items())
             unk = any(CTX.atoms.unknown[a] for a in o.p.atoms_used())
             u = CTX.atoms.new(f'_d{len(CTX.divcache)}', invertible=True, real=real, positive=pos, unknown=unk)
             CTX.add_eq(Poly.atom(u) - o.p)
